@@ -425,6 +425,9 @@ def run(R, tier):
             R.check(sel == {v["name"]} and wf, "R09.9", key, "written as %r (character data) which selects the same variant" % text.decode("latin1"), "enum variant %s is written as %r which %s" % (key, text.decode("latin1"), "selects %s" % sorted(map(str, sel)) if sel != {v["name"]} else "is not valid character response data"))
     R.floor("R09.9", "enum variants", n, 19)
 
+    # ---- R09.12 typed echo tables: string, block, character and expression data and enum mnemonics read and written back ------------
+    from . import echotable as ET
+    ET.check(R, "R09.12", "text", tier, "`*STR?` / `*ARB?` / `*CHR?` / `*EXPR?` through Node::run on the echo witness: what is written for the value that was read - quotes doubled, block header stating the payload length (9 / 10 / 100 bytes), separators and quotes inside payloads - and every other element type refused", 45)
 
 def C_bits(ity):
     return CV.INTS[ity][2]
